@@ -150,6 +150,31 @@ func init() {
 		r.noteAssumption("wall clock (time.Now) is a concrete counter in this harness: it only feeds logging/flush timing")
 		return nil
 	}
+	harnessAPI["vStubFunc"] = func(r *Run, fr *frame, args []Value) Value {
+		if r.stubFuncs == nil {
+			r.stubFuncs = map[string]Value{}
+		}
+		iv := args[1].(Iface)
+		r.stubFuncs[argStr(fr, args[0])] = iv.V
+		r.noteAssumption("replaced by a harness model: " + argStr(fr, args[0]))
+		return nil
+	}
+	harnessAPI["vChoose"] = func(r *Run, fr *frame, args []Value) Value {
+		name := argStr(fr, args[0])
+		n := int(r.concretizeInt(fr, args[1].(*Term), true))
+		k := r.choose(fr, n, "choose:"+name)
+		t := r.tt.Const(64, uint64(k))
+		if r.inputSeen[name] {
+			j := 2
+			for r.inputSeen[fmt.Sprintf("%s#%d", name, j)] {
+				j++
+			}
+			name = fmt.Sprintf("%s#%d", name, j)
+		}
+		r.inputSeen[name] = true
+		r.inputs = append(r.inputs, symInput{name, t})
+		return t
+	}
 	harnessAPI["vStub"] = func(r *Run, fr *frame, args []Value) Value {
 		if r.stubs == nil {
 			r.stubs = map[string]bool{}
